@@ -322,6 +322,10 @@ def jsonLoop {α : Type} := jsonLoopBy (α := α) (sameStim mlJsonSame)
 def compsJson {α : Type} (info : MInfo) (tasks : Option (List (JTask α))) : Except String (Comps α) :=
   compsJsonBy (sameStim mlJsonSame) info tasks
 
+/-- `load_rdms_comps_mat` with the participant test the source spells (`mlMatSame`) -/
+def compsMat {α : Type} (info : MInfo) (vars : List (Str × MatVal α)) : Except String (Comps α) :=
+  compsMatBy (sameStim mlMatSame) info vars
+
 /-! ### SPM: regressor names, file relocation -/
 
 def cSpName : Char := Char.ofNat spNameSep
